@@ -188,12 +188,13 @@ def run(ctx):
         layouts = LAYOUTS[:4] if quick else LAYOUTS
         classes = ['ok', 'missing_csv_dir', 'missing_query', 'corrupt_query', 'negative_raw', 'root_unusable',
                    'unknown_marker', 'other_taxonomy', 'fault_kill', 'fault_raise', 'ok_csc',
-                   'long_csv_name', 'stats_without_sum', 'obsm_taken']
+                   'long_csv_name', 'stats_without_sum', 'obsm_taken', 'negative_raw_nolog', 'fault_raise_nolog']
         jobs, meta = [], []
         for li, lay in enumerate(layouts):
             for ci, cls in enumerate(classes):
                 if quick and (li + ci) % 2 == 1 and cls not in ('ok', 'fault_raise', 'missing_csv_dir', 'long_csv_name',
-                                                                'stats_without_sum', 'obsm_taken'):
+                                                                'stats_without_sum', 'obsm_taken', 'negative_raw_nolog',
+                                                                'fault_raise_nolog'):
                     continue
                 s = None
                 while s is None:
@@ -202,7 +203,7 @@ def run(ctx):
                 root = ctx.scratch / f'lay_{li}_{ci}' / lay
                 root.mkdir(parents=True)
                 plan = None
-                if cls == 'negative_raw':
+                if cls in ('negative_raw', 'negative_raw_nolog'):
                     s['cfg']['norm'] = 'raw'
                     s['Q'][0][0] = -2
                 elif cls == 'root_unusable':
@@ -212,7 +213,7 @@ def run(ctx):
                 elif cls == 'other_taxonomy':
                     s['markers'] = {'0/0': s['markers']['0/0'], '7/7': [1, 2]}
                     s['markers'].pop('1/1', None)
-                elif cls in ('fault_kill', 'fault_raise'):
+                elif cls in ('fault_kill', 'fault_raise', 'fault_raise_nolog'):
                     pp = root / 'plan.json'
                     json.dump(pooltrace.fault_plan(s, 2, 'mid', cls.split('_')[1]), open(pp, 'w'))
                     plan = str(pp)
@@ -221,7 +222,7 @@ def run(ctx):
                 elif cls == 'missing_csv_dir':
                     pass      # handled in the runner: CSV path two missing levels below the output dir
                 jobs.append({'job': {'scn': s, 'scheme': 'structural', 'plan': plan, 'mode': 'cli', 'keep': True,
-                                     'workdir': str(root), 'damage': cls}})
+                                     'workdir': str(root), 'damage': 'no_log_file' if cls.endswith('_nolog') else cls}})
                 meta.append((cls, lay))
         outs = sub.run_jobs(ctx, jobs)
         nleak = 0
